@@ -91,7 +91,10 @@ def add_viol(key, sortkey, text, replay):
 def fresh_dir():
     with _lock:
         _seq[0] += 1
-        d = os.path.join(RUN, "d%06d" % _seq[0])
+        # the folder name is part of the input: every third one contains the word the dump files themselves carry
+        # ("dump"), in the last component or in a parent
+        k = _seq[0]
+        d = os.path.join(RUN, "d%06d" % k) if k % 3 else os.path.join(RUN, "dumps%06d" % k, "run.dump.d") if k % 2 else os.path.join(RUN, "my_dump_%06d" % k)
     os.makedirs(d)
     return d
 
